@@ -600,11 +600,15 @@ def check_c03(rep):
     ALL6 = tuple(SETTING_OF_FLAG)
     P_, A_ = 'printable', 'alnum'
     specs = [((1,), ('digits',), P_), ((1,), ALL6, P_), ((1, 1), ('digits',), P_), ((1, 1), ('words', 'non_words'), P_),
-             ((2,), ('digits', 'spaces', 'non_words'), P_), ((2, 1), ('digits',), A_)]
+             ((2,), ('digits', 'spaces', 'non_words'), P_), ((2, 1), ('digits',), A_), ((2, 1), ('digits',), 'alnum-bs')]
+    import itertools
+    # two test cases of one character under every PAIR of conversion options (the precedence ladder matters as soon as two classes overlap)
+    specs += [((1, 1), pr_, P_) for pr_ in itertools.combinations(SETTING_OF_FLAG, 2) if pr_ != ('words', 'non_words')]
     if rep.tier == 'thorough':
         import itertools
         specs = [((1,), tuple(k for k, on in zip(SETTING_OF_FLAG, bits) if on), P_) for bits in itertools.product((False, True), repeat=6) if any(bits)]
-        specs += [((1, 1), (k,), P_) for k in SETTING_OF_FLAG] + [((1, 1), ALL6, P_), ((2,), ALL6, P_), ((2,), ('digits', 'spaces', 'non_words'), P_),
+        specs += [((1, 1), tuple(k for k, on in zip(SETTING_OF_FLAG, bits) if on), P_) for bits in itertools.product((False, True), repeat=6) if any(bits)]
+        specs += [((2,), ALL6, P_), ((2,), ('digits', 'spaces', 'non_words'), P_), ((2, 1), ('digits',), 'alnum-bs'),
                                                                   ((2, 1), ('digits',), A_), ((2, 1), ('words', 'non_words'), A_), ((2, 2), ('digits',), A_),
                                                                   ((2, 1), ALL6, A_), ((2, 2), ('spaces', 'non_spaces'), A_), ((3, 1), ('digits',), A_),
                                                                   ((2, 1, 1), ('digits',), A_)]
@@ -1512,6 +1516,18 @@ def check_cluster(rep, clause):
             key = 's=%s,min_repetitions=%d,min_substring_length=%d' % (json.dumps(''.join(map(chr, s_))), minrep, minlen)
             classify(rep, known, o.qid, key, what, {'inputs': {'s': s_, 'min_repetitions': minrep, 'min_substring_length': minlen, 'clause': clause},
                                                     'observed': got}, bad)
+    # longer clusters with a fixed equality pattern (nested repetitions need 8-15 graphemes): thresholds stay symbolic
+    templates = ['aaabaaab', 'ababcababc'] + (['aabaabcaabaabc', 'ababcababcababc'] if rep.tier == 'thorough' else [])
+    for tpl in templates:
+        o = ob_add(rep, env.run('q05r', len(tpl), clause, template=tpl))
+        if o.result != 'sat':
+            continue
+        for m in o.verdict.models:
+            s_ = [m['g%d' % i] for i in range(len(tpl))]
+            minrep, minlen = m['cfg_minimum_repetitions'], m['cfg_minimum_substring_length']
+            bad, what, got = replay_cluster(env, s_, minrep, minlen, clause)
+            key = 's=%s,min_repetitions=%d,min_substring_length=%d' % (json.dumps(''.join(map(chr, s_))), minrep, minlen)
+            classify(rep, known, o.qid, key, what, {'inputs': {'s': s_, 'min_repetitions': minrep, 'min_substring_length': minlen, 'clause': clause}, 'observed': got}, bad)
     if clause == 'thresholds':
         # units that are shorthand-class tokens: one original character, two code points (length must be counted in characters)
         for n in ((2, 3, 4) if rep.tier == 'quick' else (2, 3, 4, 5, 6)):
@@ -1586,6 +1602,18 @@ def check_c05(rep):
             what = 'build(%s, %s) = %s does not match %s: the quantifier binds to the last character of the unit only' % (
                 [''.join(map(chr, t_)) for t_ in tests], ','.join(k for k, v in settings.items() if v), json.dumps(''.join(map(chr, pat))), [''.join(map(chr, t_)) for t_ in missed])
             classify(rep, known, o.qid, key, what, {'inputs': {'quantified': tests, 'settings': settings}, 'observed': got}, bool(missed) and not skip or 'panic' in got[0])
+    # an optional part that is itself one quantified unit must keep its group ("u{2}?" would be a lazy quantifier)
+    for n_, k_ in ((1, 2), (2, 2)) + (((2, 3), (3, 2)) if rep.tier == 'thorough' else ()):
+        o = ob_add(rep, env.run('q05o', n_, k_))
+        if o.result != 'sat':
+            continue
+        for m in o.verdict.models:
+            unit = [m['c%d' % i] for i in range(n_)]
+            head = [0x7A if 0x7A not in unit else 0x79]
+            tests = [head, head + unit * k_]
+            st_ = {'repetitions': True, 'capture_groups': bool(m.get('cfg_is_capturing_group_enabled'))}
+            bad, what, obs = replay_pipeline(env, tests, st_, 'exact')
+            classify(rep, known, 'Q05o', 'unit=%s,count=%d' % (canonical_words([unit]), k_), what, {'inputs': {'pipeline': tests, 'settings': st_, 'clause': 'exact'}, 'observed': obs}, bad)
     # repetitions nested several levels deep: the real conversion followed by the real printer, one symbolic character in a fixed template
     for tpl, esc in ([('xxbxxb', False), ('xxbxxbdxxbxxbd', False), ('xxbxxbdxxbxxbd', True)] + ([('xbxbdxbxbd', False), ('bxxbxxdbxxbxxd', True)] if rep.tier == 'thorough' else [])):
         o = ob_add(rep, env.run('q05n', tpl, esc))
@@ -1602,7 +1630,9 @@ def check_c05(rep):
     run_edge_flag_obligations(rep, env, known, [(1, 1), (2, 1)] if rep.tier == 'quick' else [(1, 1), (2, 1), (2, 2), (1, 1, 1)])
     # end to end: build() with conversion of repetitions prints a pattern whose language is still exactly the test cases
     R = {'repetitions': True}
-    specs = [((2,), 'letters', R), ((3,), 'letters', R), ((4,), 'letters', R), ((2, 1), 'letters', R)]
+    specs = [((2,), 'letters', R), ((3,), 'letters', R), ((4,), 'letters', R), ((2, 1), 'letters', R),
+             # an optional tail that is itself a repetition: "x" and "x" + "yy" (Latin-1, so that escaping matters when it is on)
+             ((1, 3), 'latin1', R), ((1, 3), 'latin1', dict(R, escape=True))]
     if rep.tier == 'thorough':
         specs += [((2, 2), 'letters', R), ((5,), 'letters', R), ((3, 2), 'letters', R), ((2,), 'ascii', R)]
     run_text_obligations(rep, env, known, specs)
@@ -1685,6 +1715,8 @@ def replay_nested(env, tpl, x, esc):
 
 
 def replay_c05(env, rec):
+    if 'pipeline' in rec['inputs']:
+        return replay_c02(env, rec)
     if 'nested_template' in rec['inputs']:
         bad, what, _ = replay_nested(env, rec['inputs']['nested_template'], rec['inputs']['x'], rec['inputs']['escape'])
         return bad, what
@@ -2280,6 +2312,10 @@ def run_text_obligations(rep, env, known, specs):
         for m in o.verdict.models:
             cases = [[m['s%d_%d' % (i, j)] for j in range(n)] for i, n in enumerate(lens)]
             bad, what, obs = replay_pipeline(env, cases, nat_settings, 'exact')
+            if not bad and not settings.get('surrogates'):
+                bad2, what2, _o = replay_settings(env, cases, tuple(sorted(k for k, v in settings.items() if v)))
+                if bad2 and ('group is' in what2 or 'flag group' in what2 or 'anchors' in what2):
+                    bad, what = True, what2
             key = 'cases=%s,%s' % ('|'.join('+'.join(u(x) for x in s_) for s_ in cases), ','.join(sorted(nat_settings)) or 'default')
             if settings.get('repetitions'):
                 # name the finding by the trie-widening event of the clusters the real converter makes of these test cases
@@ -2420,6 +2456,11 @@ def replay_settings(env, cases, settings):
     body = txt[len(want_head):].strip()
     if body.startswith('^') != ('no_start_anchor' not in settings) or body.endswith('$') != ('no_end_anchor' not in settings):
         problems.append('anchors not as requested')
+    opens = [m_.start() for m_ in re.finditer(r'(?<!\\)(?:\\\\)*\(', body)]
+    opens = [i_ + len(re.match(r'(?:\\\\)*', body[i_:]).group(0)) for i_ in opens]
+    noncap = [i_ for i_ in opens if body[i_:i_ + 3] == '(?:']
+    if ('capture' in settings and noncap) or ('capture' not in settings and len(noncap) != len(opens)):
+        problems.append('not every group is %s' % ('capturing' if 'capture' in settings else 'non-capturing'))
     what = 'build(%s, %s) = %s' % ([''.join(map(chr, c)) for c in cases], ','.join(settings) or 'default', json.dumps(txt)) + ('; ' + '; '.join(problems) if problems else '')
     return bool(problems), what, {'pattern': pat}
 
